@@ -59,6 +59,8 @@ def rows : List Row := [
   ⟨"F03g", "IndexError", "xpath_tokens/base.py:get_results", ["array"], 0⟩,
   ⟨"F03g", "InvalidOperation", "datatypes/untyped.py:_operator", cmpOps ++ ["index-of", "distinct-values"], 0⟩,
   ⟨"F03g", "IndexError", "xpath_tokens/functions.py:validated_result", ["for-each", "filter", "fold-left", "fold-right", "for-each-pair", "sort", "apply"], 0⟩,
+  ⟨"F03g", "AssertionError", "xpath1/xpath1_parser.py:parse_occurrence", ["instance", "treat", "cast", "castable", "as"], 0⟩,
+  ⟨"F03g", "ParseError", "xpath30/_xpath30_functions.py:evaluate__analyze_string", ["analyze-string"], 0⟩,   -- repaired on branch fix-c12
   ⟨"F03g", "KeyError", "xpath_tokens/base.py:cast_to_primitive_type", ["avg", "sum", "min", "max"], 0⟩,
   ⟨"F03g", "TypeError", "datatypes/uri.py:__init__", ["uri-collection"], 0⟩,
   ⟨"F03g", "TypeError", "serialization.py:serialize_to_xml", ["serialize"], 0⟩,
@@ -88,6 +90,8 @@ def rows : List Row := [
   ⟨"F03h", "MemoryError", "xpath2/_xpath2_operators.py:evaluate__range_expression", ["to"], 0⟩,
   ⟨"F03h", "Hang", "xpath2/_xpath2_operators.py:evaluate__range_expression", ["to"], 0⟩,
   ⟨"F03h", "Hang", "worker", ["to", "exp10", "pow"], 0⟩,
+  ⟨"F03h", "Hang", "xpath30/_xpath30_functions.py:evaluate__round", ["round"], 0⟩,
+  ⟨"F03h", "MemoryError", "xpath30/_xpath30_functions.py:evaluate__round", ["round"], 0⟩,
   ⟨"F03h", "Hang", "xpath2/_xpath2_functions.py:evaluate__round_half_to_even", ["round-half-to-even"], 0⟩,
   ⟨"F03h", "MemoryError", "xpath2/_xpath2_functions.py:evaluate__round_half_to_even", ["round-half-to-even"], 0⟩,
   ⟨"F03h", "OverflowError", "xpath30/_xpath30_functions.py:evaluate__exp", ["exp"], 0⟩,
